@@ -97,7 +97,9 @@ def case_strategy(draw, tier="quick"):
             b[keep] = val
         box = b.tolist()
     return {"records": recs, "format": fmt, "vel": vel, "title": title, "box_kind": bk, "box": box,
-            "declare": draw(st.booleans()), "api": draw(st.sampled_from(["writeline", "writelines", "with", "tuple"]))}
+            "declare": draw(st.booleans()),
+            "api": draw(st.sampled_from(["writeline", "writelines", "with", "tuple", "strings"])),
+            "read_api": draw(st.sampled_from(["path", "path", "fileobj", "open_coordinate_file", "iterate"]))}
 
 
 def write_with_library(case, path):
@@ -112,7 +114,13 @@ def write_with_library(case, path):
             f.position_format = (case["format"] + 5, case["format"])
         if case["declare"]:
             f.natoms = len(recs)
-        if case["api"] == "writelines":
+        if case["api"] == "strings":
+            # pre-formatted lines ("if it is a string, it will be written directly")
+            d = 3 if case["format"] is None else case["format"]
+            fd = {"position": (d + 5, d), "velocities": case["vel"]}
+            for r in recs:
+                f.writeline(GroFile.parse_atomlist(list(r), fd))
+        elif case["api"] == "writelines":
             f.writelines([list(r) for r in recs])
         elif case["api"] == "tuple":
             for r in recs:
@@ -135,9 +143,16 @@ def check(case):
         raw = fb.read()
 
     def rd():
-        g = GroFile(path)
+        how = case.get("read_api", "path")
+        if how == "fileobj":
+            g = GroFile(open(path))
+        elif how == "open_coordinate_file":
+            g = open_coordinate_file(path)
+        else:
+            g = GroFile(path)
         try:
-            return g.readlines(), np.array(g.box_matrix, float), g.comment, g.natoms
+            recs_ = [next(g) for _ in range(g.natoms)] if how == "iterate" else g.readlines()
+            return recs_, np.array(g.box_matrix, float), g.comment, g.natoms
         finally:
             g.close()
     got, box, comment, natoms = lib("read", rd)
@@ -201,7 +216,7 @@ def check(case):
     return {"nontrivial": nt,
             "classes": [tag, "vel" if case["vel"] else "novel", "box:" + case["box_kind"],
                         "declared" if case["declare"] else "backfilled", "big-number" if big_number else "small-numbers",
-                        "api:" + case["api"]],
+                        "api:" + case["api"], "read:" + case.get("read_api", "path")],
             "sample": {"n": len(recs), "first": recs[:2], "format": case["format"], "title": case["title"],
                        "box": case["box"], "declare": case["declare"], "api": case["api"]}}
 
